@@ -32,6 +32,9 @@ type c05Op struct {
 	SKind  int    // sync: new kind
 	M      int32  // sync: new max (kMIF)
 	Strat  int    // sync: limit strategy of the schema (0 none, 1 local, 2 globalAllocate, 3 globalCount)
+	// StaleM (acquire, relaxed model only): the largest limit a lowering that
+	// overlapped this call replaced - the limit the call may have read before it
+	StaleM int32
 }
 
 var c05Strats = []proxyv1alpha1.LimitStrategy{"", proxyv1alpha1.LocalLimit, proxyv1alpha1.GlobalAllocateLimit, proxyv1alpha1.GlobalCountLimit}
@@ -58,7 +61,12 @@ type c05State struct {
 }
 
 // c05Model: sequential specification from the property text.
-func c05Model(init c05State) porcupine.Model {
+func c05Model(init c05State) porcupine.Model { return c05ModelOpt(init, false) }
+
+// c05ModelOpt with relaxed=true judges an admission against the larger of the
+// current limit and the limit a lowering overlapping the call replaced (known
+// finding F-C05-1: the limit is read before the count is incremented).
+func c05ModelOpt(init c05State, relaxed bool) porcupine.Model {
 	nm := porcupine.NondeterministicModel{
 		Init: func() []interface{} { return []interface{}{init} },
 		Step: func(state, input, output interface{}) []interface{} {
@@ -90,7 +98,11 @@ func c05Model(init c05State) porcupine.Model {
 					if !ok {
 						return []interface{}{s} // a refusal is never a violation of the bound
 					}
-					if s.inflight >= s.m {
+					lim := s.m
+					if relaxed && in.StaleM > lim {
+						lim = in.StaleM
+					}
+					if s.inflight >= lim {
 						return nil // admitted beyond M
 					}
 					s.inflight++
@@ -386,6 +398,40 @@ func RunC05(r *sim.Run) {
 	res := porcupine.CheckOperationsTimeout(c05Model(init), hist, 20*time.Second)
 	switch res {
 	case porcupine.Illegal:
+		// Is it explained by admissions that were judged against a limit read before a
+		// lowering that overlapped the call (F-C05-1)? Every admitted acquire gets the
+		// largest limit replaced by a lowering it overlapped; the relaxed model may use it.
+		var syncs []porcupine.Operation
+		for _, h := range hist {
+			if h.Input.(c05Op).Kind == "sync" {
+				syncs = append(syncs, h)
+			}
+		}
+		sort.Slice(syncs, func(i, j int) bool { return syncs[i].Call < syncs[j].Call })
+		prevKind, prevM := initKind, M
+		relaxedHist := append([]porcupine.Operation(nil), hist...)
+		stale := 0
+		for _, sy := range syncs {
+			so := sy.Input.(c05Op)
+			if prevKind == kMIF && so.SKind == kMIF && so.M < prevM {
+				for i, h := range relaxedHist {
+					op := h.Input.(c05Op)
+					if op.Kind == "acquire" && h.Output == true && h.Call < sy.Return && h.Return > sy.Call && op.StaleM < prevM {
+						op.StaleM = prevM
+						relaxedHist[i].Input = op
+						stale++
+					}
+				}
+			}
+			prevKind = so.SKind
+			if so.SKind == kMIF {
+				prevM = so.M
+			}
+		}
+		if stale > 0 && porcupine.CheckOperationsTimeout(c05ModelOpt(init, true), relaxedHist, 20*time.Second) == porcupine.Ok {
+			r.Finding("admitted_on_a_limit_read_before_its_lowering", "acquire-overlapping-resize", "an acquire whose call overlapped a lowering of the limit was admitted against the limit it had read before (the count is incremented and compared after the limit was read): %s", histString(hist))
+			break
+		}
 		r.Violate("bound_exceeded", c05Sig(hist), "history is not explained by the sequential max-in-flight model (a request was admitted beyond M, or the default/exempt limiter refused): %s", histString(hist))
 	case porcupine.Unknown:
 		r.Inconclusive("porcupine timeout")
